@@ -257,6 +257,12 @@ func CollationRegistry(prop, tier string) []UniverseDef {
 		digits := CollSpec{Name: "PFX-DIGITS", Prefix: true, Free: []string{"item1", "item10", "item100", "item2", "item", "itemA", "item01"}, Probes: []string{"item3"},
 			Prefixes: []string{"item1", "item10", "item", "item2", "item0", "item3", "ite"}}
 		add(digits, und, "string", false)
+		// a language-tailored collator supplied at construction: precomposed letters with a primary weight of their own
+		// (Swedish a-umlaut sorts after z); a Prefix whose search key were built by any other collator descends into the wrong subtree
+		svp := CollSpec{Name: "PFX-SV", Prefix: true, Free: []string{"ära", "ärlig", "zebra", "apa", "är", "ara"}, Probes: []string{"ä", "z"},
+			Prefixes: []string{"ä", "är", "a", "ar", "z", "ärl", "ö"}}
+		add(svp, cols[1], "string", true)
+		add(svp, cols[1], "[]byte", true)
 		return out
 	}
 	if prop == "C14" || prop == "C15" {
